@@ -13,7 +13,7 @@ abbrev Bytes := List UInt8
 open Lean in
 /-- `b!"text"` is the list of the UTF-8 bytes of the literal, as an explicit list literal, so that
 it reduces in the kernel and under `decide` (string literals do not). -/
-macro "b!" s:str : term => do
+macro:max "b!" s:str : term => do
   let bs := s.getString.toUTF8.toList
   let elems ← bs.toArray.mapM fun b => `(($(quote b.toNat) : UInt8))
   `(([$elems,*] : List UInt8))
@@ -59,7 +59,7 @@ inductive Outcome (α : Type) where
   | ok : α → Outcome α
   | err : ErrKind → Outcome α
   | panic : String → Outcome α
-  deriving Repr
+  deriving Repr, DecidableEq
 
 namespace Outcome
 
@@ -185,6 +185,17 @@ def assocExtend {β : Type} (m : List (Bytes × List β)) (k : Bytes) (vs : List
   | [] => [(k, vs)]
   | (k', vs') :: rest =>
     if k' = k then (k', vs' ++ vs) :: rest else (k', vs') :: assocExtend rest k vs
+
+/-! ### Sorting (insertion sort: structurally recursive, so it reduces under `decide`; for a total
+order the sorted result is unique, so it is the list Rust's `sort`/`sort_unstable` produce) -/
+
+def insertBy {α : Type} (le : α → α → Bool) (x : α) : List α → List α
+  | [] => [x]
+  | y :: ys => if le x y then x :: y :: ys else y :: insertBy le x ys
+
+def sortBy {α : Type} (le : α → α → Bool) : List α → List α
+  | [] => []
+  | x :: xs => insertBy le x (sortBy le xs)
 
 /-! ### Hex -/
 
